@@ -645,6 +645,48 @@ def ddl_recipes(env):
             ix._set_parent(t)
         return [CreateIndex(ix), DropIndex(ix), CreateTable(t)]
 
+    @rec("plain_element_constraints")
+    def _(rng, v):
+        """constraints / indexes whose members are lightweight column() / literal_column() / text() / string
+        elements rather than Column objects (all accepted by the constructors)"""
+        n[0] += 1
+        md = sa.MetaData()
+
+        def el(name):
+            return rng.choice([lambda: sa.column(name), lambda: sa.literal_column(name), lambda: name,
+                               lambda: sa.column(name, sa.Integer)])()
+
+        out = []
+        # 1. constraints given inline to Table()
+        k = rng.randint(1, 3)
+        names = ["a", "b", "c"][:k]
+        cons = rng.choice([
+            lambda: sa.UniqueConstraint(*[el(x) for x in names], name=rng.choice([None, f"uq_p{n[0]}"])),
+            lambda: sa.PrimaryKeyConstraint(*[x for x in names], name=rng.choice([None, f"pk_p{n[0]}"])),
+            lambda: sa.CheckConstraint(rng.choice([sa.column("a") > 5, sa.text("a > 5"), sa.literal_column("a") > sa.literal_column("b"),
+                                                   sa.and_(sa.column("a") > 0, sa.column("b").in_([1, 2]))]), name=rng.choice([None, f"ck_p{n[0]}"])),
+            lambda: sa.Index(f"ix_p{n[0]}", *[el(x) for x in names if True], unique=rng.random() < 0.3),
+            lambda: sa.Index(f"ix_q{n[0]}", sa.text("lower(c)"), sa.column("a")),
+            lambda: sa.Index(f"ix_r{n[0]}", sa.func.lower(sa.column("c", sa.String)), sa.literal_column("b").desc()),
+        ])()
+        t1 = sa.Table(f"pe{n[0]}", md, sa.Column("a", sa.Integer), sa.Column("b", sa.Integer), sa.Column("c", sa.String(20)), cons,
+                      **rng.choice([{}, {}, {"sqlite_with_rowid": False}, {"mysql_engine": "InnoDB"}]))
+        out.append(CreateTable(t1))
+        for c in t1.constraints:
+            if not isinstance(c, sa.PrimaryKeyConstraint) or c.name:
+                out.append(AddConstraint(c))
+                if c.name:
+                    out.append(DropConstraint(c))
+        for ix in t1.indexes:
+            out += [CreateIndex(ix), DropIndex(ix)]
+        # 2. constraint appended afterwards
+        t2 = sa.Table(f"pf{n[0]}", md, sa.Column("a", sa.Integer), sa.Column("b", sa.Integer))
+        uq = sa.UniqueConstraint(el("a"), *( [el("b")] if rng.random() < 0.4 else []), name=f"uq_f{n[0]}",
+                                 **rng.choice([{}, {}, {"sqlite_on_conflict": "IGNORE"}, {"postgresql_nulls_not_distinct": True}]))
+        t2.append_constraint(uq)
+        out += [CreateTable(t2), AddConstraint(uq), DropConstraint(uq)]
+        return out
+
     @rec("sequences_schemas")
     def _(rng, v):
         n[0] += 1
